@@ -1,4 +1,5 @@
 import PqVerif.Lemmas.EngineInv
+import PqVerif.Props.C03Chain
 
 /-!
 # C03 — shot accounting (finite shots)
